@@ -492,14 +492,24 @@ func evalSite(s *site, vars []string, values []string) (opName string, res evalR
 		return "", d
 	}
 	env[delimName] = d.Value
-	// parameters are bound positionally: the i-th String parameter of the
-	// emitted method receives the i-th value the caller passes
-	for i, p := range s.Params {
+	// parameters are bound BY NAME, as a caller does who reads the emitted
+	// signature: the parameter called like a prefix variable receives that
+	// variable's value, whatever its position
+	byName := map[string]string{}
+	for i, v := range vars {
+		if i < len(values) {
+			byName[v] = values[i]
+		}
+	}
+	var strangers []string
+	for _, p := range s.Params {
 		if strings.HasPrefix(p, "?") {
 			return "", evalResult{Status: stUnknown, Msg: "non-String parameter before the payload: " + shapeOf(p[1:]), Stage: "topic"}
 		}
-		if i < len(values) {
-			env[p] = values[i]
+		if v, ok := byName[p]; ok {
+			env[p] = v
+		} else {
+			strangers = append(strangers, p)
 		}
 	}
 	o := eval(s.Op, env)
@@ -509,6 +519,9 @@ func evalSite(s *site, vars []string, values []string) (opName string, res evalR
 	}
 	if len(s.Params) != len(values) {
 		return o.Value, evalResult{Status: stCompileError, Msg: fmt.Sprintf("emitted method takes %d String parameters %v, the scope declares %d prefix variables", len(s.Params), s.Params, len(vars)), Stage: "prefix"}
+	}
+	if len(strangers) > 0 {
+		return o.Value, evalResult{Status: stCompileError, Msg: fmt.Sprintf("emitted method takes String parameters %v, %v are not prefix variables of the scope %v (parameter-name mismatch)", s.Params, strangers, vars), Stage: "prefix"}
 	}
 	env["op"] = o.Value
 	p := eval(s.Prefix, env)
@@ -584,6 +597,7 @@ func kindOf(msg string) string {
 		{"cannot find symbol", "java-unknown-symbol"},
 		{"undefined name", "dart-undefined-interpolation-name"},
 		{"'$' in a string literal", "dart-bare-dollar"},
+		{"parameter-name mismatch", "parameter-name-mismatch"},
 		{"emitted method takes", "parameter-count-mismatch"},
 	} {
 		if strings.Contains(msg, p[0]) {
